@@ -944,6 +944,16 @@ class Node:
         assert before is None
         if not self._children:
             raise ValueError("Need child nodes when `add_self=False`")
+        # Check all children first, so a refused call does not leave a partial copy
+        target_node = target if isinstance(target, Node) else target._root
+        own_ids = {c._data_id for c in target_node._children or ()}
+        for child in self._children:
+            if child._data_id in own_ids:
+                raise UniqueConstraintError(
+                    f"Node.data already exists in parent: {child}"
+                )
+            if deep and (target_node is child or target_node.is_descendant_of(child)):
+                raise ValueError(f"Cannot copy a branch below itself: {child}")
         res = None
         for child in self.children:
             n = target.add_child(child, before=None, deep=deep)
